@@ -154,6 +154,8 @@ def locate(src, path, lo=0, hi=None):
     hi = len(src.text) if hi is None else hi
     seg = path[0]
     kind, _, rest = seg.partition(' ')
+    if seg.startswith('impl'):
+        kind, rest = 'impl', seg[4:].strip()
     found = []
     if kind == 'impl':
         for (s, e, m) in src.find_code(r'\bimpl\b', lo, hi, all=True):
